@@ -147,7 +147,7 @@ func tplRef(ps []tplPart, vars map[string]string) string {
 // ---------- the monitor ----------
 
 type c20Resolution struct {
-	Backend string `json:"backend,omitempty"`
+	Backend               string `json:"backend,omitempty"`
 	Comp, RT, Role, Entry string
 	Pattern               int // bit0 (rt,role) bit1 (ANY,role) bit2 (rt,any) bit3 (ANY,any)
 	Query                 string
@@ -307,69 +307,69 @@ func c20ResolutionSet(c *vlib.Ctx, idx int64) {
 	varSets := []map[string]string{mkVars("a", false, false), mkVars("b", false, true), mkVars("c", true, false), {}}
 
 	runPatterns := func(svc *local.Service, backend string) {
-	for pattern := 0; pattern < 16; pattern++ {
-		pcomp := fmt.Sprintf("%s-p%d", comp, pattern)
-		qs := pcomp + "/" + rt + "/" + role + "/" + entryPath
-		desc := c20Resolution{Comp: pcomp, RT: rt, Role: role, Entry: entryPath, Pattern: pattern, Query: qs, Vars: varSets, Backend: backend}
-		id := c.Case(desc)
-		if idx == 0 && pattern == 5 {
-			c.Sample(desc)
-		}
-		exists := func(crt, crole string) bool {
-			_, ok := tpls[pcomp+"|"+crt+"|"+crole]
-			return ok
-		}
-		ert, erole, eok := refResolve(exists, rt, role)
-		c.Nontrivial(vlib.Hash("res", pattern, rt == "ANY", role == "any", nested, len(varNames)))
-		q, err := componentcfg.NewQuery(qs)
-		if err != nil {
-			c.Violation("PARSE", "wellformed-rejected", fmt.Sprintf("NewQuery(%q) rejected a well-formed query: %v", qs, err), id, desc)
-			continue
-		}
-		res, err := svc.ResolveComponentQuery(q)
-		c.Count("resolutions", 1)
-		if !eok {
-			c.Count("resolutions_none_exists", 1)
-			if err == nil {
-				c.Violation("RESOLVE", "success-when-none-exists", fmt.Sprintf("pattern %04b: resolved to %v although no candidate exists", pattern, res), id, desc)
+		for pattern := 0; pattern < 16; pattern++ {
+			pcomp := fmt.Sprintf("%s-p%d", comp, pattern)
+			qs := pcomp + "/" + rt + "/" + role + "/" + entryPath
+			desc := c20Resolution{Comp: pcomp, RT: rt, Role: role, Entry: entryPath, Pattern: pattern, Query: qs, Vars: varSets, Backend: backend}
+			id := c.Case(desc)
+			if idx == 0 && pattern == 5 {
+				c.Sample(desc)
 			}
-			continue
-		}
-		if err != nil || res == nil {
-			c.Violation("RESOLVE", "failure-when-candidate-exists", fmt.Sprintf("pattern %04b: error %v although (%s,%s) exists", pattern, err, ert, erole), id, desc)
-			continue
-		}
-		want := pcomp + "/" + ert + "/" + erole + "/" + entryPath
-		if res.Raw() != want {
-			c.Violation("RESOLVE", fmt.Sprintf("wrong-candidate/pattern-%04b", patternClass(pattern, rt, role)),
-				fmt.Sprintf("pattern %04b query %s: resolved %s, most specific existing is %s", pattern, qs, res.Raw(), want), id, desc)
-			continue
-		}
-		parts := tpls[pcomp+"|"+ert+"|"+erole]
-		raw, err := svc.GetComponentConfiguration(res)
-		if err != nil {
-			c.Violation("RESOLVE", "resolved-path-unreadable", fmt.Sprintf("resolved %s cannot be read: %v", res.Raw(), err), id, desc)
-			continue
-		}
-		if raw != tplText(parts) {
-			c.Violation("RESOLVE", "resolved-content-mismatch", fmt.Sprintf("resolved %s content %q want %q", res.Raw(), raw, tplText(parts)), id, desc)
-		}
-		// templating with exactly the supplied variables; repeated on the same service so that
-		// values leaking from a previous call would show
-		for vi, vs := range varSets {
-			got, err := svc.GetAndProcessComponentConfiguration(res, vs)
-			c.Count("template_renders", 1)
-			wantP := tplRef(parts, vs)
+			exists := func(crt, crole string) bool {
+				_, ok := tpls[pcomp+"|"+crt+"|"+crole]
+				return ok
+			}
+			ert, erole, eok := refResolve(exists, rt, role)
+			c.Nontrivial(vlib.Hash("res", pattern, rt == "ANY", role == "any", nested, len(varNames)))
+			q, err := componentcfg.NewQuery(qs)
 			if err != nil {
-				c.Violation("TEMPLATE", "render-error", fmt.Sprintf("processing %s with %v: %v", res.Raw(), vs, err), id, desc)
-				break
+				c.Violation("PARSE", "wellformed-rejected", fmt.Sprintf("NewQuery(%q) rejected a well-formed query: %v", qs, err), id, desc)
+				continue
 			}
-			if got != wantP {
-				c.Violation("TEMPLATE", "payload-mismatch", fmt.Sprintf("processing %s varset %d %v: got %q want %q", res.Raw(), vi, vs, got, wantP), id, desc)
-				break
+			res, err := svc.ResolveComponentQuery(q)
+			c.Count("resolutions", 1)
+			if !eok {
+				c.Count("resolutions_none_exists", 1)
+				if err == nil {
+					c.Violation("RESOLVE", "success-when-none-exists", fmt.Sprintf("pattern %04b: resolved to %v although no candidate exists", pattern, res), id, desc)
+				}
+				continue
+			}
+			if err != nil || res == nil {
+				c.Violation("RESOLVE", "failure-when-candidate-exists", fmt.Sprintf("pattern %04b: error %v although (%s,%s) exists", pattern, err, ert, erole), id, desc)
+				continue
+			}
+			want := pcomp + "/" + ert + "/" + erole + "/" + entryPath
+			if res.Raw() != want {
+				c.Violation("RESOLVE", fmt.Sprintf("wrong-candidate/pattern-%04b", patternClass(pattern, rt, role)),
+					fmt.Sprintf("pattern %04b query %s: resolved %s, most specific existing is %s", pattern, qs, res.Raw(), want), id, desc)
+				continue
+			}
+			parts := tpls[pcomp+"|"+ert+"|"+erole]
+			raw, err := svc.GetComponentConfiguration(res)
+			if err != nil {
+				c.Violation("RESOLVE", "resolved-path-unreadable", fmt.Sprintf("resolved %s cannot be read: %v", res.Raw(), err), id, desc)
+				continue
+			}
+			if raw != tplText(parts) {
+				c.Violation("RESOLVE", "resolved-content-mismatch", fmt.Sprintf("resolved %s content %q want %q", res.Raw(), raw, tplText(parts)), id, desc)
+			}
+			// templating with exactly the supplied variables; repeated on the same service so that
+			// values leaking from a previous call would show
+			for vi, vs := range varSets {
+				got, err := svc.GetAndProcessComponentConfiguration(res, vs)
+				c.Count("template_renders", 1)
+				wantP := tplRef(parts, vs)
+				if err != nil {
+					c.Violation("TEMPLATE", "render-error", fmt.Sprintf("processing %s with %v: %v", res.Raw(), vs, err), id, desc)
+					break
+				}
+				if got != wantP {
+					c.Violation("TEMPLATE", "payload-mismatch", fmt.Sprintf("processing %s varset %d %v: got %q want %q", res.Raw(), vi, vs, got, wantP), id, desc)
+					break
+				}
 			}
 		}
-	}
 	}
 	runPatterns(svc, "file")
 
